@@ -29,6 +29,8 @@ type c02Load struct {
 	Policies map[string]int `json:"policies,omitempty"`
 	Kind     string         `json:"kind"`
 	Err      string         `json:"err,omitempty"`
+	Sched    int            `json:"schedule_no"`
+	DefPol   int            `json:"default_policy"`
 }
 
 // c02Compare returns "" when b agrees with the reference outcome a.
@@ -114,7 +116,8 @@ func c02Scenario(c *Ctx, r *zsimrt.Run, L *Layout, pinned []map[string]int) *Vio
 			r.ResetPolicies()
 		}
 		out := RunLoad(L, Materialise(L), "", true)
-		loads = append(loads, c02Load{Label: s.label, Policies: r.SitePolicies(), Kind: out.Kind(), Err: out.Err})
+		loads = append(loads, c02Load{Label: s.label, Policies: r.SitePolicies(), Kind: out.Kind(), Err: out.Err, Sched: r.Schedule(), DefPol: s.pol})
+		c.Trace(fmt.Sprintf("%s:%s:%d:%d:%x", s.label, out.Kind(), out.KeysCalls, out.IOEvents, fnvHash(out.YAML)))
 		c.Count("loads", 1)
 		c.Count("outcome-"+out.Kind(), 1)
 		if i == 0 {
@@ -164,12 +167,14 @@ func c02Minimise(c *Ctx, r *zsimrt.Run, L *Layout, failing int, loads []c02Load,
 	}
 	sort.Strings(sites)
 	check := func(keep map[string]int) bool {
-		rr := zsimrt.NewRun(r.Seed ^ 0x5bd1e995)
+		// same seed and schedule number as the failing load: the per-site decisions are the same ones
+		rr := zsimrt.NewRun(r.Seed)
 		zsimrt.Activate(rr)
 		defer zsimrt.Activate(r)
 		rr.SetPolicy(zsimrt.OrdSorted)
 		a := RunLoad(L, Materialise(L), "", true)
-		rr.ResetPolicies()
+		rr.SetSchedule(loads[failing].Sched)
+		rr.SetPolicy(zsimrt.OrdSorted)
 		for s, p := range keep {
 			rr.SetSitePolicy(s, p)
 		}
